@@ -31,7 +31,7 @@ ASSUMPTIONS = [
 ]
 BUDGET = {"quick": 70, "thorough": 700}
 FLOORS = {"crash_points": {"quick": 3000, "thorough": 100000}, "directory_states_checked": {"quick": 3000, "thorough": 100000},
-          "depth2_states": {"quick": 1500, "thorough": 50000}, "real_kills": {"quick": 20, "thorough": 150}, "driver_saves": 4}
+          "depth2_states": {"quick": 1500, "thorough": 50000}, "real_kills": {"quick": 20, "thorough": 150}, "driver_saves": 6}
 
 NAME = "/ckpt/checkpoint.json"
 
@@ -66,7 +66,7 @@ def cases(tier, seed):
     for p in pos:
         for start in ("clean", "between-renames"):
             out.append({"engine": "sigkill", "pos": list(p), "start": start})
-    for alg in ("mcmc", "optimizer"):
+    for alg in ("mcmc", "optimizer", "optimizer-lbfgs"):  # the two code paths of Optimizer: _run (first-order) and _run_closure (LBFGS)
         out.append({"engine": "driver", "algorithm": alg, "bufsize": 64})
     return out
 
@@ -307,6 +307,8 @@ def run_driver(case, V, C, seen):
         spec = [joint, {"id": "mcmc", "type": "Optimizer", "algorithm": "torch.optim.SGD", "options": {"lr": 0.01}, "maximize": True, "loss": "joint",
                         "parameters": ["x"], "iterations": 4, "checkpoint": NAME, "checkpoint_frequency": 1, "convergence": None}]
         spec[1].pop("convergence")
+        if alg == "optimizer-lbfgs":
+            spec[1].update(algorithm="torch.optim.LBFGS", options={"lr": 0.1, "max_iter": 2})
     # pass 1: record how many operations each save performs
     vfs = fsshim.VFS({}, case["bufsize"])
     with fsshim.installed(vfs):
